@@ -2,75 +2,107 @@
    Only theorem statements; each is closed by [exact] of a lemma of coq/C03/*Proofs.v and followed
    by Print Assumptions.  factory / msg_encode_str are the instrumented models of Message::factory
    and Message::encode(f8String&) in coq/Codec (every write into a stack buffer is checked against
-   the buffer's capacity, real_caps = the capacities of the pinned source); the predicates
-   tokens_bounded, c03_wf, c03_nohang, c03_nodata are the boolean hypotheses of coq/C03/Bounds.v.
+   the buffer's capacity, real_caps = the capacities of the pinned source).
 
-   The property as stated is FALSE of the pinned code (three refutations below: F06, F07, F08);
-   what is true is stated as ..._partial with the exact boolean hypotheses. *)
+   State of the code (/repo a8219b1): extract_element is bounded (d48d8ce), decode_group leaves
+   its loop on an empty element (a0d41df), fast_atoi honours '-' and does not shift (a8219b1).
+   The decode theorems are therefore stated for ALL byte strings.  NOT repaired and stated as
+   refutations / partial theorems: extract_element_fixed_width (tag write unbounded and not
+   terminated), output[] of encode(f8String&) (F07), the missing range test of fast_atoi<int>,
+   the date/time parsers.  The pre-repair definitions (extract_element_orig, decode_group_orig)
+   carry the witnesses of the repaired defects. *)
 From Coq Require Import NArith ZArith List Bool String.
-From F8 Require Import Codec.Bytes Codec.Meta Codec.Extract Codec.Decode Codec.Encode
+From F8 Require Import Codec.Bytes Codec.Meta Codec.Extract Codec.Decode Codec.Encode Codec.Example
                        C03.Bounds C03.ExtractProofs C03.FactoryProofs C03.EncodeProofs.
 Import ListNotations.
 Local Open Scope N_scope.
 
-(* The tokeniser never leaves the caller's buffers when, in the memory it is given, every run of
-   digits is shorter than the tag buffer and fewer bytes than the value buffer holds follow any
-   '=' before the next SOH -- from whatever offset it is started (the lemma every decoding loop
-   rests on). *)
-Theorem c03_extract_element_safe : forall tc vc tcap vcap from sz,
-  tc <= tcap -> vc <= vcap -> 0 < tc -> 0 < vc -> run_ok tc vc 0 None from = true -> sz <= lenN from ->
-  forall s, extract_element from sz tcap vcap <> XOOB s.
+(* The tokeniser never leaves the caller's buffers, whatever the memory it is given contains and
+   whatever the (non-empty) buffers' sizes are: it fails the extraction instead. *)
+Theorem c03_extract_element_safe : forall tcap vcap from sz,
+  0 < tcap -> 0 < vcap -> sz <= lenN from -> forall s, extract_element from sz tcap vcap <> XOOB s.
 Proof. exact extract_element_safe. Qed.
 Print Assumptions c03_extract_element_safe.
 
-(* Decoding, memory safety: for every schema whose group tables are closed (c03_wf, checked on the
-   dumped metadata at every run), every byte string with bounded tokens, strict or permissive,
-   with or without checksum test, Message::factory overruns no buffer and does not run out of
-   fuel: it returns a message, throws a library exception, or ends in one of two NAMED residual
-   classes -- Diverge (finding F08, refuted below) or the read of the tag buffer the fixed-width
-   extractor left unterminated (OOB site_uninit_tag: the Length/data defect that belongs to C06). *)
-Theorem c03_decode_safe_partial : forall c bytes no_chksum permissive,
-  c03_wf c = true -> tokens_bounded bytes = true ->
+(* Decoding: for every schema with closed group tables (c03_wf, checked on the dumped metadata at
+   every run) and EVERY byte string shorter than 2^32, strict or permissive, with or without
+   checksum test, Message::factory returns a message or throws a library exception, or ends in one
+   of the two memory errors of the unrepaired fixed-width extractor (classified): the tag write
+   past tag[2048] or the read of tag[] beyond the bytes written.  Never another overrun of the
+   tag/val/len/mtype buffers, never a read past the input, never Diverge, never Fuel. *)
+Theorem c03_decode_safe : forall c bytes no_chksum permissive,
+  c03_wf c = true -> is_bytes bytes = true -> lenN bytes < 4294967296 ->
   classified (factory c real_caps bytes no_chksum permissive).
-Proof. exact c03_decode_safe_partial_lemma. Qed.
-Print Assumptions c03_decode_safe_partial.
+Proof. exact c03_decode_safe_lemma. Qed.
+Print Assumptions c03_decode_safe.
 
-(* ... and with the two residual classes excluded by schema conditions (no group class without a
-   mandatory member, no Length/data pair) the property holds as stated: Ok or library exception. *)
-Theorem c03_decode_safe_strong_partial : forall c bytes no_chksum permissive,
-  c03_nohang c = true -> c03_nodata c = true -> tokens_bounded bytes = true ->
+(* ... if no run of digits in the input reaches 2048, only the uninitialised read remains ... *)
+Theorem c03_decode_digits_partial : forall c bytes no_chksum permissive,
+  c03_wf c = true -> is_bytes bytes = true -> lenN bytes < 4294967296 ->
+  digit_runs_ok MAX_FLD_LENGTH 0 bytes = true ->
+  classified_uninit (factory c real_caps bytes no_chksum permissive).
+Proof. exact c03_decode_digits_lemma. Qed.
+Print Assumptions c03_decode_digits_partial.
+
+(* ... and for a schema without Length/data pairs the property holds as stated: Ok or exception. *)
+Theorem c03_decode_safe_nodata_partial : forall c bytes no_chksum permissive,
+  c03_wf c = true -> c03_nodata c = true -> is_bytes bytes = true -> lenN bytes < 4294967296 ->
   safe (factory c real_caps bytes no_chksum permissive).
-Proof. exact c03_decode_safe_strong_lemma. Qed.
-Print Assumptions c03_decode_safe_strong_partial.
+Proof. exact c03_decode_safe_nodata_lemma. Qed.
+Print Assumptions c03_decode_safe_nodata_partial.
 
-(* Totality of the model: on EVERY byte string (bounded or not) the fuel dec_fuel suffices -- each
-   turn of each loop of decode / decode_group consumes at least two bytes -- so a run of the model
-   ends in Ok, Exc, OOB or Diverge, and Diverge is returned exactly where the C++ makes no progress. *)
+(* Totality: on EVERY list of numbers the fuel dec_fuel suffices (each turn of each loop of decode /
+   decode_group consumes at least two bytes) and the repaired decode_group never stalls. *)
 Theorem c03_decode_total : forall c bytes no_chksum permissive,
-  c03_wf c = true -> factory c real_caps bytes no_chksum permissive <> Fuel.
+  c03_wf c = true ->
+  factory c real_caps bytes no_chksum permissive <> Fuel /\ factory c real_caps bytes no_chksum permissive <> Diverge.
 Proof. exact c03_decode_total_lemma. Qed.
 Print Assumptions c03_decode_total.
 
-(* F08: the termination lemma is FALSE of decode_group: "...|78=1|A=1|..." -- a token that
-   extract_element rejects directly after the count of a group whose class has no mandatory member
-   -- makes it append empty elements for ever.  The input is bounded, the schema well-formed. *)
-Theorem c03_group_hang_refuted :
-  exists c bytes, c03_wf c = true /\ tokens_bounded bytes = true /\
-                  factory c real_caps bytes false false = Diverge.
-Proof. exact c03_group_hang_refuted_lemma. Qed.
-Print Assumptions c03_group_hang_refuted.
+(* NOT repaired (finding C03-fixedwidth-tag): after a Length field the 2049th digit of a run is
+   written past tag[2048]; a data tag longer than the Length field's own makes decode read tag[]
+   beyond the bytes written.  Both inputs are byte strings; the second has short digit runs. *)
+Theorem c03_fixed_width_refuted :
+  factory ex_ctx real_caps (fw_digits 2049) false false = OOB site_tag_write /\
+  factory ex_ctx real_caps (fw_digits 2048) false false = OOB site_uninit_tag /\
+  digit_runs_ok MAX_FLD_LENGTH 0 (fw_digits 2047) = true /\ digit_runs_ok MAX_FLD_LENGTH 0 (fw_digits 2049) = false /\
+  factory ex_ctx real_caps fw_uninit false false = OOB site_uninit_tag /\
+  is_bytes (fw_digits 2049) = true /\ is_bytes fw_uninit = true /\ digit_runs_ok MAX_FLD_LENGTH 0 fw_uninit = true.
+Proof. exact c03_fixed_width_refuted_lemma. Qed.
+Print Assumptions c03_fixed_width_refuted.
 
-(* F06: a value of 2048 bytes overruns val[2048] in MessageBase::decode, a MsgType of 100 bytes
-   overruns mtype[32] through extract_header; a value of 2047 bytes is safe (and bounded). *)
-Theorem c03_val_overflow_refuted :
-  exists c b1 b2 b3,
-    c03_wf c = true /\
-    factory c real_caps b1 false false = OOB site_val_write /\ dec_class c b1 false false = DDec /\
-    factory c real_caps b2 false false = OOB site_val_write /\ dec_class c b2 false false = DHdr /\
-    safe (factory c real_caps b3 false false) /\ tokens_bounded b3 = true /\
-    tokens_bounded b1 = false /\ tokens_bounded b2 = false.
-Proof. exact c03_val_overflow_refuted_lemma. Qed.
-Print Assumptions c03_val_overflow_refuted.
+(* F06, repaired by d48d8ce: the ORIGINAL extract_element writes a value of 2048 bytes through
+   val[2048]; the repaired one fails the extraction and factory answers with an exception. *)
+Theorem c03_val_overflow_orig_refuted :
+  extract_element_orig (val_token 2048) (lenN (val_token 2048)) MAX_FLD_LENGTH MAX_FLD_LENGTH = XOOB site_val_write /\
+  (exists t v r, extract_element_orig (val_token 2047) (lenN (val_token 2047)) MAX_FLD_LENGTH MAX_FLD_LENGTH = XOk t v r) /\
+  (exists t v, extract_element (val_token 2048) (lenN (val_token 2048)) MAX_FLD_LENGTH MAX_FLD_LENGTH = XFail t v) /\
+  (exists t v r, extract_element (val_token 2047) (lenN (val_token 2047)) MAX_FLD_LENGTH MAX_FLD_LENGTH = XOk t v r) /\
+  safe (factory ex_ctx real_caps (hb_val 2048) false false) /\ safe (factory ex_ctx real_caps (hb_val 3000) false false).
+Proof. exact c03_val_overflow_orig_refuted_lemma. Qed.
+Print Assumptions c03_val_overflow_orig_refuted.
+
+(* F06 (header), repaired by d48d8ce: a MsgType of 32 bytes through mtype[32], 32 digits through tag[32]. *)
+Theorem c03_header_overflow_orig_refuted :
+  extract_element_orig (mtype_token 32) (lenN (mtype_token 32)) MAX_MSGTYPE_FIELD_LEN MAX_MSGTYPE_FIELD_LEN = XOOB site_val_write /\
+  extract_element_orig (tag_token 32) (lenN (tag_token 32)) MAX_MSGTYPE_FIELD_LEN MAX_FLD_LENGTH = XOOB site_tag_write /\
+  (exists t v, extract_element (mtype_token 32) (lenN (mtype_token 32)) MAX_MSGTYPE_FIELD_LEN MAX_MSGTYPE_FIELD_LEN = XFail t v) /\
+  (exists t v, extract_element (tag_token 32) (lenN (tag_token 32)) MAX_MSGTYPE_FIELD_LEN MAX_FLD_LENGTH = XFail t v) /\
+  (exists t v r, extract_element (mtype_token 31) (lenN (mtype_token 31)) MAX_MSGTYPE_FIELD_LEN MAX_MSGTYPE_FIELD_LEN = XOk t v r) /\
+  safe (factory ex_ctx real_caps (long_mtype 100) false false).
+Proof. exact c03_header_overflow_orig_refuted_lemma. Qed.
+Print Assumptions c03_header_overflow_orig_refuted.
+
+(* F08, repaired by a0d41df: on "A=1|" right after the count of a group whose class has no
+   mandatory member the ORIGINAL decode_group appends empty elements for ever (Diverge); the
+   repaired one returns at once and factory accepts or rejects the message. *)
+Theorem c03_group_hang_orig_refuted :
+  c03_wf ex_ctx = true /\
+  decode_group_orig ex_ctx real_caps hang_tail (lenN hang_tail) 10 (create_group ex_orders true) 78 0 = Diverge /\
+  (exists m, decode_group ex_ctx real_caps hang_tail (lenN hang_tail) 10 (create_group ex_orders true) 78 0 = Ok (m, 0)) /\
+  safe (factory ex_ctx real_caps hang_msg false false).
+Proof. exact c03_group_hang_orig_refuted_lemma. Qed.
+Print Assumptions c03_group_hang_orig_refuted.
 
 (* Encoding: a message whose encoding is no longer than FIX8_MAX_MSG_LENGTH is written inside
    output[] and returned unchanged ... *)
@@ -80,24 +112,31 @@ Theorem c03_encode_safe_partial : forall c m bytes m',
 Proof. exact c03_encode_safe_partial_lemma. Qed.
 Print Assumptions c03_encode_safe_partial.
 
-(* ... F07: a 9000-byte string field is written through the end of output[8224]. *)
+(* ... F07 (NOT repaired): a 9000-byte string field is written through the end of output[8224]. *)
 Theorem c03_encode_overflow_refuted :
   exists c m, (exists b m', msg_encode c m = Ok (b, m') /\ MAX_MSG_LENGTH + HEADER_CALC_OFFSET <= lenN b) /\
               msg_encode_str c real_caps m = OOB site_encode_buf.
 Proof. exact c03_encode_overflow_refuted_lemma. Qed.
 Print Assumptions c03_encode_overflow_refuted.
 
-(* F09 (standing UB): the UB predicate for fast_atoi<int> at its edges. *)
+(* fast_atoi<int> since a8219b1: an optional '-' followed by at most 9 digits never triggers UB ... *)
+Theorem c03_fast_atoi_safe_partial : forall s, small_int_text s = true -> atoi_ub s = false.
+Proof. exact c03_fast_atoi_safe_partial_lemma. Qed.
+Print Assumptions c03_fast_atoi_safe_partial.
+
+(* ... the edges of the int range parse without UB, one step beyond them is signed overflow (there
+   is still no range test), non-digits are accepted ("1e3" = 633). *)
 Theorem c03_fast_atoi_ub_refuted :
-  atoi_ub (bytes_of_string "2147483647"%string) = true /\ atoi_ub (bytes_of_string "-"%string) = false /\
-  atoi_ub (bytes_of_string "-5"%string) = true /\ atoi_ub (bytes_of_string "2147483599"%string) = false /\
-  atoi_ub (bytes_of_string "99999999999"%string) = true /\ atoi_ub (bytes_of_string "0"%string) = false.
+  atoi_ub (bytes_of_string "2147483647"%string) = false /\ atoi_ub (bytes_of_string "-2147483648"%string) = false /\
+  atoi_ub (bytes_of_string "2147483648"%string) = true /\ atoi_ub (bytes_of_string "-2147483649"%string) = true /\
+  atoi_ub (bytes_of_string "99999999999"%string) = true /\ atoi_ub (bytes_of_string "1e3"%string) = false /\
+  atoi_val (bytes_of_string "-5"%string) = (-5)%Z /\ atoi_val (bytes_of_string "1e3"%string) = 633%Z.
 Proof. exact c03_atoi_ub_lemma. Qed.
 Print Assumptions c03_fast_atoi_ub_refuted.
 
-(* New finding: the date/time field constructors (parse_decimal / time_to_epoch, field.hpp) have UB
-   on received texts: month 14 indexes mon_days[13] + 1, a char below '0' leads to a shift of a
-   negative value, year 9999 overflows the 64-bit tick count; None = the parser reads beyond the text. *)
+(* The date/time field constructors (parse_decimal / time_to_epoch, field.hpp) have UB on received
+   texts: month 14 indexes mon_days[13] + 1, a char below '0' leads to a shift of a negative value,
+   year 9999 overflows the 64-bit tick count; None = the parser reads beyond the text. *)
 Theorem c03_datetime_ub_refuted :
   dt_ub ft_UTCTimestamp (bytes_of_string "20231401-00:00:00"%string) = Some true /\
   dt_ub ft_UTCTimestamp (bytes_of_string "2023-101-00:00:00.000"%string) = Some true /\
@@ -108,14 +147,12 @@ Theorem c03_datetime_ub_refuted :
 Proof. exact c03_datetime_ub_lemma. Qed.
 Print Assumptions c03_datetime_ub_refuted.
 
-(* Non-vacuity: the example schema is well-formed, an encoded message with nested groups is
-   bounded and decodes; a schema exists that meets the hypotheses of the strong theorem, decodes
-   the same message and rejects the hang input with an exception. *)
+(* Non-vacuity: the example schema is well-formed, an encoded message with nested groups is a byte
+   string and decodes; a schema without Length/data pairs exists and decodes the same message. *)
 Theorem c03_nonvacuous :
-  c03_wf Codec.Example.ex_ctx = true /\ tokens_bounded ex_list_bytes = true /\
-  (exists m, factory Codec.Example.ex_ctx real_caps ex_list_bytes false false = Ok m) /\
-  c03_nohang safe_ctx = true /\ c03_nodata safe_ctx = true /\
-  (exists m, factory safe_ctx real_caps ex_list_bytes false false = Ok m) /\
-  (exists e, factory safe_ctx real_caps hang_msg false false = Exc e).
+  c03_wf ex_ctx = true /\ is_bytes ex_list_bytes = true /\ lenN ex_list_bytes < 4294967296 /\
+  (exists m, factory ex_ctx real_caps ex_list_bytes false false = Ok m) /\
+  c03_wf safe_ctx = true /\ c03_nodata safe_ctx = true /\
+  (exists m, factory safe_ctx real_caps ex_list_bytes false false = Ok m).
 Proof. exact c03_nonvacuous_lemma. Qed.
 Print Assumptions c03_nonvacuous.
